@@ -217,6 +217,82 @@ func (c *Ctx) mapxRun() *simpleVerdict {
 		}(w)
 	}
 	wg.Wait()
+	// long histories: one map, no Clear, hundreds of registrations that each carry a reference of their own (the
+	// statement bounds neither the number of registrations nor the number of distinct references): 300 on Latin
+	// ranges, 600 on Latin ranges, ranges above U+00FF and ranges spanning U+0100; every probe is looked up after
+	// every 50th registration and at the end and compared with the latest covering registration
+	longRanges := [][2]int64{{'a', 'z'}, {0xE0, 0xFF}, {'m', 'm'}, {0x00, 0x7F}, {0xFF, 0xFF}, {0x30, 0xC0},
+		{0xFF, 0x100}, {0x41, 0x141}, {0x100, 0x17F}, {0xC0, 0x2000}, {0x101, 0x101}, {0x00, 0xFFFE}, {0x2000, 0xFFFE}}
+	longV := &simpleVerdict{}
+	parts = append(parts, longV)
+	for _, lh := range []struct {
+		n, ranges int
+	}{{300, 6}, {600, len(longRanges)}} {
+		m := newMach(c)
+		obj, out := m.Call(ctor)
+		if out.kind != "ok" {
+			longV.undec = "NewCharReferenceMap: " + out.why
+			break
+		}
+		var seq []mapOp
+		describe := func() string {
+			var rs []string
+			for _, r := range longRanges[:lh.ranges] {
+				rs = append(rs, fmt.Sprintf("%#x-%#x", r[0], r[1]))
+			}
+			return fmt.Sprintf("%d registrations of distinct references R0, R1, ... on one new map (registration k: AddInterval with Rk over range number (k+5*(k/%d)) mod %d of [%s]), the last being %s", len(seq), lh.ranges, lh.ranges, strings.Join(rs, " "), seq[len(seq)-1])
+		}
+		for k := 0; k < lh.n && longV.bad == "" && longV.undec == ""; k++ {
+			// the ranges are visited in an order that changes from round to round
+			r := longRanges[(k+k/lh.ranges*5)%lh.ranges]
+			o := mapOp{"add", r[0], r[1], fmt.Sprintf("R%d", k)}
+			seq = append(seq, o)
+			m.steps = 0
+			_, out := m.Call(c.lookupMethod(mt, "AddInterval"), obj, o.start, o.end, mIface{t: types.Typ[types.String], v: o.ref})
+			if out.kind == "panic" {
+				longV.bad = "after " + describe() + ": the registration panics: " + out.why
+				break
+			}
+			if out.kind != "ok" {
+				longV.undec = "after " + describe() + ": " + out.why
+				break
+			}
+			if (k+1)%50 != 0 && k+1 != lh.n {
+				continue
+			}
+			longV.runs++
+			for _, p := range probes {
+				m.steps = 0
+				r, out := m.Call(c.lookupMethod(mt, "Lookup"), obj, p)
+				if out.kind == "panic" {
+					longV.bad = fmt.Sprintf("after %s, Lookup(%#x) panics: %s", describe(), p, out.why)
+					break
+				}
+				if out.kind != "ok" {
+					longV.undec = fmt.Sprintf("after %s, Lookup(%#x): %s", describe(), p, out.why)
+					break
+				}
+				got := ""
+				switch t := r.(type) {
+				case mIface:
+					got, _ = t.v.(string)
+				case mNilT:
+				default:
+					got = mRender(r)
+				}
+				if want := mapModelLookup(seq, p); got != want {
+					show := func(s string) string {
+						if s == "" {
+							return "nothing"
+						}
+						return s
+					}
+					longV.bad = fmt.Sprintf("after %s, Lookup(%#x) returns %s; the latest registration covering it gives %s", describe(), p, show(got), show(want))
+					break
+				}
+			}
+		}
+	}
 	total := &simpleVerdict{}
 	for _, p := range parts {
 		total.runs += p.runs
@@ -747,7 +823,7 @@ func emitSimple(c *Ctx, rule, key, pos string, v *simpleVerdict, okText string) 
 
 func init() {
 	register(&Rule{ID: "MAP.model", Floor: 1,
-		Doc: "CharReferenceMap evaluated abstractly (NewCharReferenceMap, AddInterval, AddDefaultInterval, Clear, Lookup) over every sequence of up to two registrations/clears (a sample of the sequences of three in the quick tier, all in the thorough tier) with endpoints from {0,'a',0xFF,0x100,0x101,0x2000,0xFFFE} and references {A,B,none}, probed at every endpoint and its neighbours and at characters beyond U+FFFE whose low 16 bits equal an endpoint: Lookup returns the reference of the latest registration covering the character",
+		Doc: "CharReferenceMap evaluated abstractly (NewCharReferenceMap, AddInterval, AddDefaultInterval, Clear, Lookup) over every sequence of up to two registrations/clears (a sample of the sequences of three in the quick tier, all in the thorough tier) with endpoints from {0,'a',0xFF,0x100,0x101,0x2000,0xFFFE} and references {A,B,none}, probed at every endpoint and its neighbours and at characters beyond U+FFFE whose low 16 bits equal an endpoint; long histories of 300 and 600 registrations of pairwise distinct references on Latin ranges, ranges above U+00FF and ranges spanning U+0100 without a Clear, probed after every 50th registration: Lookup returns the reference of the latest registration covering the character",
 		Run: func(c *Ctx) []*Obligation {
 			return emitSimple(c, "MAP.model", "utilities.CharReferenceMap#latest-covering-registration", c.Pos(c.MustFunc("tokenizers/utilities", "", "NewCharReferenceMap").Pos()), c.mapxRun(), "lookups agree with the list model")
 		}})
